@@ -41,7 +41,14 @@ int cfg_tol(const cfg_t *c) { return c->be == EC_BACKEND_FLAT_XOR_HD ? c->hd - 1
 
 void cfg_key(const cfg_t *c, char *buf, size_t n)
 {
-    snprintf(buf, n, "%s|k=%d,m=%d,hd=%d,ct=%d", be_name(c->be), c->k, c->m, c->hd, c->ct);
+    if (c->w) snprintf(buf, n, "%s|k=%d,m=%d,hd=%d,w=%d,ct=%d", be_name(c->be), c->k, c->m, c->hd, c->w, c->ct);
+    else snprintf(buf, n, "%s|k=%d,m=%d,hd=%d,ct=%d", be_name(c->be), c->k, c->m, c->hd, c->ct);
+}
+
+void cfg_use(const cfg_t *c)
+{
+    /* the size models follow the configuration being worked on */
+    if (c->be == EC_BACKEND_ISA_L_RS_VAND || c->be == EC_BACKEND_ISA_L_RS_CAUCHY) ref_isal_word_bits = (c->w == 16 || c->w == 32) ? c->w : 0;
 }
 
 int lec_create(const cfg_t *c)
@@ -49,6 +56,7 @@ int lec_create(const cfg_t *c)
     struct ec_args a;
     memset(&a, 0, sizeof a);
     a.k = c->k; a.m = c->m; a.hd = c->hd; a.w = c->w; a.ct = c->ct;
+    cfg_use(c);
     return liberasurecode_instance_create((ec_backend_id_t)c->be, &a);
 }
 
@@ -60,7 +68,7 @@ int cfgs_rs(cfg_t *out, int max, int be, int thorough, uint64_t seed)
         for (int k = 1; k <= 31; k++)
             for (int m = 1; k + m <= 32; m++)
                 if (n < max) out[n++] = (cfg_t){ be, k, m, m, 0, CHKSUM_CRC32 };
-        return n;
+        goto explicit_w;
     }
     static const int fixed[][2] = {
         {1,1},{1,2},{2,1},{2,2},{3,2},{3,3},{4,2},{5,3},{6,3},{10,4},{12,3},{8,4},{4,4},{2,6},
@@ -72,7 +80,21 @@ int cfgs_rs(cfg_t *out, int max, int be, int thorough, uint64_t seed)
     for (int i = 0; i < 5 && n < max; i++) {
         int k = 1 + (int)rng_below(&r, 31);
         int m = 1 + (int)rng_below(&r, (uint32_t)(32 - k));
-        out[n++] = (cfg_t){ be, k, m, m, 0, CHKSUM_CRC32 };
+        /* hd is documented as meaningful for flat-XOR only: RS-style backends must not care what it is */
+        static const int odd_hd[] = { 0, 1, 99, -3, 31 };
+        out[n++] = (cfg_t){ be, k, m, i < 2 ? m : odd_hd[i], 0, CHKSUM_CRC32 };
+    }
+explicit_w:
+    if (be == EC_BACKEND_LIBERASURECODE_RS_VAND) {
+        /* the built-in code works on 16-bit words whatever `w` the caller passes (the argument is documented as optional
+         * and this backend ignores it): same fragments as with w = 0 */
+        static const int ws[][3] = { {4, 2, 8}, {10, 4, 32}, {5, 3, 7}, {3, 3, 64}, {2, 2, -5}, {7, 2, 16}, {1, 2, 8} };
+        for (size_t i = 0; i < sizeof ws / sizeof ws[0] && n < max; i++) out[n++] = (cfg_t){ be, ws[i][0], ws[i][1], ws[i][1], ws[i][2], CHKSUM_CRC32 };
+    }
+    if (be == EC_BACKEND_ISA_L_RS_VAND || be == EC_BACKEND_ISA_L_RS_CAUCHY) {
+        /* legal explicit word sizes: 8 (same as default), 16 and 32 (coarser padding unit, same GF(2^8) code) */
+        static const int ws[][3] = { {4, 2, 8}, {4, 2, 16}, {5, 3, 32}, {10, 4, 16}, {3, 5, 32}, {1, 1, 16} };
+        for (size_t i = 0; i < sizeof ws / sizeof ws[0] && n < max; i++) out[n++] = (cfg_t){ be, ws[i][0], ws[i][1], ws[i][1], ws[i][2], CHKSUM_CRC32 };
     }
     return n;
 }
@@ -82,6 +104,10 @@ int cfgs_xor(cfg_t *out, int max)
     int n = 0;
     for (int i = 0; i < xor_ntables && n < max; i++)
         out[n++] = (cfg_t){ EC_BACKEND_FLAT_XOR_HD, xor_tables[i].k, xor_tables[i].m, xor_tables[i].hd, 0, CHKSUM_CRC32 };
+    /* flat-XOR always pads to 32-bit words: an explicit word size must not change anything */
+    static const int xw[][4] = { {10, 5, 3, 8}, {6, 6, 4, 16}, {10, 5, 4, 64}, {3, 3, 3, -1}, {12, 6, 4, 7} };
+    for (size_t i = 0; i < sizeof xw / sizeof xw[0] && n < max; i++)
+        if (xor_find(xw[i][0], xw[i][1], xw[i][2])) out[n++] = (cfg_t){ EC_BACKEND_FLAT_XOR_HD, xw[i][0], xw[i][1], xw[i][2], xw[i][3], CHKSUM_CRC32 };
     return n;
 }
 
@@ -323,7 +349,11 @@ int ctx_open(ctx_t *x, const cfg_t *c, const uint64_t *lens, const int *kinds, i
     if (x->desc <= 0) return -1;
     x->desc2 = -1;
     if (mon_case_all("%s|create-twin-instance", x->ck)) {
+        /* created while the legacy-CRC switch has the OTHER value: what an instance writes depends on the environment
+         * at the time it writes, not on the environment it was created in */
+        lec_env_legacy(LEC_MODEL_LEGACY ? 0 : 3);
         x->desc2 = lec_create(c);
+        lec_env_legacy(LEC_MODEL_LEGACY ? 3 : 0);
         if (x->desc2 <= 0) mon_viol(LEC_PROP, "create-failed", "second instance_create for the same configuration returned %d", x->desc2);
         else if (x->desc2 == x->desc) mon_viol(LEC_PROP, "descriptor-not-unique", "second instance got the descriptor of the first (%d)", x->desc);
         mon_end();
@@ -367,11 +397,13 @@ int ctx_open(ctx_t *x, const cfg_t *c, const uint64_t *lens, const int *kinds, i
         }
         (void)ok;
     }
+    if (x->nstr > 0) noise_publish(x->desc, &x->c, &x->st[x->nstr / 2]);
     return x->nstr > 0 ? 0 : -1;
 }
 
 void ctx_close(ctx_t *x)
 {
+    noise_unpublish();
     for (int i = 0; i < x->nstr; i++) { stripe_free(&x->st[i]); free(x->data[i]); }
     if (x->desc2 > 0) {
         if (mon_case_all("%s|destroy-twin-instance", x->ck)) {
@@ -425,4 +457,142 @@ int payload_sweep_lengths(const cfg_t *c, uint64_t *lens, int *kinds, int max)
         lens[n] = k * P - (d == 0 ? 0 : 1); kinds[n] = DATA_RANDOM; n++;
     }
     return n;
+}
+
+/* ================================================================ environment switch, in place */
+#include <pthread.h>
+#include <sched.h>
+#include <stdatomic.h>
+static char env_buf[48] = "XIBERASURECODE_WRITE_LEGACY_CRC=\0\0\0\0\0\0\0";
+static int env_inited;
+void lec_env_legacy(int mode)
+{
+    if (!env_inited) {          /* first call happens before any thread is started */
+        unsetenv("LIBERASURECODE_WRITE_LEGACY_CRC");
+        putenv(env_buf);        /* environ points at env_buf from now on; only its bytes change */
+        env_inited = 1;
+    }
+    volatile char *b = env_buf;
+    char *val = env_buf + 32;
+    b[0] = 'X';                                         /* hidden: getenv("LIBERASURECODE_...") finds nothing */
+    static const char *vals[] = { "", "", "0", "1", "yes" };
+    const char *v = vals[mode < 0 || mode > 4 ? 0 : mode];
+    for (int i = 0; i < 4; i++) val[i] = i < (int)strlen(v) ? v[i] : 0;
+    if (mode != 0) b[0] = 'L';
+}
+
+/* ================================================================ noise thread */
+typedef struct { int desc; cfg_t c; int n, k, tol; uint64_t flen, len; uint8_t **frag; } nz_pub_t;
+static nz_pub_t nz_slot;
+static _Atomic(nz_pub_t *) nz_cur;
+static atomic_int nz_busy, nz_quit, nz_running;
+static atomic_long nz_ops;
+static pthread_t nz_thread;
+
+typedef struct { cfg_t c; int desc; stripe_t s; uint8_t *data; uint8_t *twin; } nz_own_t;
+#define NZ_OWN 5
+static nz_own_t nz_own[NZ_OWN];
+static int nz_nown;
+
+static void nz_use(int desc, const cfg_t *c, int n, int k, int tol, uint64_t flen, uint8_t **frag, uint64_t round, uint8_t *twin)
+{
+    /* decode with data loss (pattern varies per round), reconstruct, fragments_needed, metadata / validation queries */
+    char *lst[64]; int cnt = 0;
+    uint32_t er = 0;
+    int want = tol < 1 ? 0 : 1 + (int)(round % (uint64_t)tol);
+    if (c->be == EC_BACKEND_FLAT_XOR_HD && c->hd == 4 && (round & 1)) { er = 1u | 2u | (1u << (5 % k)); want = 3; }   /* a P xor Q triple of the m=5 tables */
+    else for (int q = 0; q < want; q++) er |= 1u << ((round * 7 + (uint64_t)q * 3) % (uint64_t)n);
+    for (int i = 0; i < n; i++) if (!((er >> i) & 1)) lst[cnt++] = (char *)frag[i];
+    char *out = NULL; uint64_t ol = 0;
+    if (liberasurecode_decode(desc, lst, cnt, flen, (int)(round & 1), &out, &ol) == 0) liberasurecode_decode_cleanup(desc, out);
+    if (er) {
+        int dest = __builtin_ctz(er);
+        if (round & 2) for (int i = n - 1; i >= 0; i--) if ((er >> i) & 1) { dest = i; break; }
+        char *o = malloc(flen ? flen : 1);
+        liberasurecode_reconstruct_fragment(desc, lst, cnt, flen, dest, o);
+        free(o);
+        int R[8], X[2] = { -1, -1 }, N[40]; int nr = 0;
+        for (int i = 0; i < n && nr < 6; i++) if ((er >> i) & 1) R[nr++] = i;
+        R[nr] = -1;
+        liberasurecode_fragments_needed(desc, R, X, N);
+    }
+    fragment_metadata_t md;
+    liberasurecode_get_fragment_metadata((char *)frag[round % (uint64_t)n], &md);
+    if (twin) liberasurecode_get_fragment_metadata((char *)twin, &md);
+    is_invalid_fragment(desc, (char *)frag[(round + 1) % (uint64_t)n]);
+    liberasurecode_verify_stripe_metadata(desc, lst, cnt);
+    liberasurecode_get_fragment_size(desc, (int)(round % 5000));
+    liberasurecode_get_aligned_data_size(desc, round % 7000);
+    atomic_fetch_add(&nz_ops, 1);
+}
+
+static void *nz_main(void *arg)
+{
+    (void)arg;
+    uint64_t round = 0;
+    while (!atomic_load(&nz_quit)) {
+        nz_pub_t *p = atomic_load(&nz_cur);
+        if (p) {
+            atomic_store(&nz_busy, 1);
+            if (atomic_load(&nz_cur) == p) nz_use(p->desc, &p->c, p->n, p->k, p->tol, p->flen, p->frag, round, NULL);
+            atomic_store(&nz_busy, 0);
+        }
+        if (nz_nown) { nz_own_t *o = &nz_own[round % (uint64_t)nz_nown]; nz_use(o->desc, &o->c, o->s.n, o->c.k, cfg_tol(&o->c), o->s.flen, o->s.frag, round / (uint64_t)nz_nown, o->twin); }
+        round++;
+    }
+    return NULL;
+}
+
+void noise_start(void)
+{
+    lec_env_legacy(0);
+    static const cfg_t pool[NZ_OWN] = { { EC_BACKEND_LIBERASURECODE_RS_VAND, 10, 4, 4, 0, CHKSUM_CRC32 }, { EC_BACKEND_FLAT_XOR_HD, 10, 5, 4, 0, CHKSUM_CRC32 },
+                                        { EC_BACKEND_FLAT_XOR_HD, 12, 6, 4, 0, CHKSUM_NONE }, { EC_BACKEND_ISA_L_RS_CAUCHY, 4, 2, 2, 0, CHKSUM_CRC32 }, { EC_BACKEND_LIBERASURECODE_RS_VAND, 3, 3, 3, 0, CHKSUM_NONE } };
+    int isal = liberasurecode_backend_available(EC_BACKEND_ISA_L_RS_CAUCHY);
+    nz_nown = 0;
+    for (int i = 0; i < NZ_OWN; i++) {
+        if (!isal && pool[i].be == EC_BACKEND_ISA_L_RS_CAUCHY) continue;
+        nz_own_t *o = &nz_own[nz_nown];
+        o->c = pool[i];
+        int saved = ref_isal_word_bits;
+        o->desc = lec_create(&o->c);
+        ref_isal_word_bits = saved;
+        if (o->desc <= 0) continue;
+        uint64_t len = (uint64_t)o->c.k * 1700 + 13;              /* > 1 KiB per fragment */
+        o->data = malloc(len); rng_t r; rng_seed(&r, 99, (uint64_t)i); rng_fill(&r, o->data, len);
+        if (stripe_make(&o->s, o->desc, &o->c, o->data, len) != 0) { liberasurecode_instance_destroy(o->desc); free(o->data); continue; }
+        o->twin = malloc(o->s.flen); memcpy(o->twin, o->s.frag[0], o->s.flen);
+        { uint8_t t[REF_HDR_LEN]; ref_hdr_twin(o->s.frag[0], t, 0); memcpy(o->twin, t, REF_HDR_LEN); }
+        nz_nown++;
+    }
+    atomic_store(&nz_quit, 0);
+    if (pthread_create(&nz_thread, NULL, nz_main, NULL) == 0) atomic_store(&nz_running, 1);
+    mon_count0("noise_thread_started", 1);
+}
+
+void noise_publish(int desc, const cfg_t *c, const stripe_t *s)
+{
+    if (!atomic_load(&nz_running) || desc <= 0 || c->be == EC_BACKEND_NULL) return;
+    noise_unpublish();
+    nz_slot.desc = desc; nz_slot.c = *c; nz_slot.n = s->n; nz_slot.k = c->k; nz_slot.tol = cfg_tol(c); nz_slot.flen = s->flen; nz_slot.len = s->len; nz_slot.frag = s->frag;
+    atomic_store(&nz_cur, &nz_slot);
+}
+
+void noise_unpublish(void)
+{
+    if (!atomic_load(&nz_running)) return;
+    atomic_store(&nz_cur, NULL);
+    while (atomic_load(&nz_busy)) sched_yield();
+}
+
+void noise_stop(void)
+{
+    if (!atomic_load(&nz_running)) return;
+    noise_unpublish();
+    atomic_store(&nz_quit, 1);
+    pthread_join(nz_thread, NULL);
+    atomic_store(&nz_running, 0);
+    mon_count("noise_thread_rounds", atomic_load(&nz_ops));
+    for (int i = 0; i < nz_nown; i++) { liberasurecode_instance_destroy(nz_own[i].desc); stripe_free(&nz_own[i].s); free(nz_own[i].data); free(nz_own[i].twin); }
+    nz_nown = 0;
 }
